@@ -46,6 +46,7 @@ type ChainRunOpts struct {
 	AfterMine  func(r *BlockRec) bool // called before dumps (C01 inserts into validators here)
 	FactoryTag int
 	NoDumps    bool
+	NoStableLag bool // the factory's store must keep every block's state readable (it serves as reference for older blocks)
 }
 
 func drawParams(c *Ctx, terms bool) ChainParams {
@@ -82,7 +83,10 @@ func chainRun(c *Ctx, net *Net, g *TxGen, f *Factory, o ChainRunOpts) {
 	}
 	// the miner's own stable block trails its head by lag blocks (0: it never stabilises anything
 	// but genesis). What is stable on a node must not influence what it mines or accepts.
-	lag := c.Draw("lag", 4)
+	lag := 0
+	if !o.NoStableLag {
+		lag = c.Draw("lag", 4)
+	}
 	var mined []*types.Block
 	for h := 1; h <= nBlocks; h++ {
 		// advance the clock by less than one slot so deputies rotate, sometimes by several
